@@ -72,5 +72,9 @@ pub enum SwarmControlMessage {
     ConnectionClosed {
         ip_version: IpVersion,
         announced_info_hashes: Vec<(InfoHash, PeerId)>,
+        /// Identifies the closed connection, so that only peers created
+        /// through it are removed
+        out_message_consumer_id: ConsumerId,
+        connection_id: ConnectionId,
     },
 }
